@@ -52,3 +52,22 @@ VARIANTS = [
     dict(name="slope-inline", kind="benign", edits=[(MA,
         "    slope: float = 0.01 * (box_scale_100m - box_scale_0m)\n    return slope * distance + box_scale_0m", "    return box_scale_0m + (box_scale_100m - box_scale_0m) * distance / 100.0")]),
 ]
+
+PT = "common/point.py"
+VARIANTS += [
+    dict(name="winding-upward-both-closed", kind="break", rule="C12-winding", edits=[(PT,
+        "incremental_flags = (area[i][1] <= pointcloud[:, 1]) * (area[next_idx][1] > pointcloud[:, 1])", "incremental_flags = (area[i][1] <= pointcloud[:, 1]) * (area[next_idx][1] >= pointcloud[:, 1])")]),
+    dict(name="winding-downward-not-counted", kind="break", rule="C12-winding", edits=[(PT, "        cnt_arr_[decremental_flags] -= 1\n", "")]),
+    dict(name="winding-left-test-uses-next-vertex-x", kind="break", rule="C12-winding", edits=[(PT,
+        "valid_idx = pointcloud[:, 0] < (area[i][0] + (vt * (area[next_idx][0] - area[i][0])))", "valid_idx = pointcloud[:, 0] < (area[next_idx][0] + (vt * (area[next_idx][0] - area[i][0])))")]),
+    dict(name="winding-skips-closing-edge", kind="break", rule="C12-winding", edits=[(PT, "    for i in range(num_vertices):\n        next_idx", "    for i in range(num_vertices - 1):\n        next_idx")]),
+    dict(name="seed2-signed-counter-inside-nonzero", kind="break", rule="C12-partition", edits=[
+        (PT, "cnt_arr_: np.ndarray = np.zeros(pointcloud.shape[0], dtype=np.uint8)", "cnt_arr_: np.ndarray = np.zeros(pointcloud.shape[0], dtype=np.int8)"),
+        (PT, "xy_idx: np.ndarray = 0 < cnt_arr_ if inside else cnt_arr_ <= 0", "xy_idx: np.ndarray = cnt_arr_ != 0 if inside else cnt_arr_ <= 0")]),
+    dict(name="winding-operands-turned-around", kind="benign", edits=[(PT,
+        "incremental_flags = (area[i][1] <= pointcloud[:, 1]) * (area[next_idx][1] > pointcloud[:, 1])", "incremental_flags = (pointcloud[:, 1] >= area[i][1]) * (pointcloud[:, 1] < area[next_idx][1])")]),
+    dict(name="winding-signed-counter-tested-by-sign", kind="break", rule="C12-winding", edits=[(PT, "np.zeros(pointcloud.shape[0], dtype=np.uint8)", "np.zeros(pointcloud.shape[0], dtype=np.int16)")]),
+    dict(name="winding-signed-counter-tested-nonzero", kind="benign", edits=[
+        (PT, "np.zeros(pointcloud.shape[0], dtype=np.uint8)", "np.zeros(pointcloud.shape[0], dtype=np.int16)"),
+        (PT, "xy_idx: np.ndarray = 0 < cnt_arr_ if inside else cnt_arr_ <= 0", "xy_idx: np.ndarray = cnt_arr_ != 0 if inside else cnt_arr_ == 0")]),
+]
